@@ -55,6 +55,8 @@ CiRules == ReleaseRules("ci.release") \cup
   R("ci.variant", "uid", "none", "reject"), R("ci.variant", "uid", "int", "reject"),
   R("ci.variant", "uid", "misaligned", "reject"),
   R("ci.variant", "name", "empty", "reject"), R("ci.variant", "name", "none", "reject"), R("ci.variant", "name", "int", "reject"),
+  R("ci.variant", "name", "blanks", "reject"),          \* blank required text: blanks and tabs only
+  R("ci.variant", "paths_table", "str", "na"),          \* a path category's table replaced by a path
   R("ci.variant", "type", "unknown", "reject"), R("ci.variant", "type", "upper", "reject"), R("ci.variant", "type", "none", "reject"),
   R("ci.variant", "arches", "emptyset", "reject"), R("ci.variant", "arches", "none", "reject"), R("ci.variant", "arches", "str", "reject"), R("ci.variant", "arches", "archlist", "na"),
   \* a set whose one element is no architecture name (a variant without children, so that nothing else objects)
@@ -67,6 +69,8 @@ CiRules == ReleaseRules("ci.release") \cup
   R("ci.childvariant", "uid", "dashvariant", "reject"), R("ci.childvariant", "uid", "doubledash", "reject") }
 ImageRules == {
   R("img.image", "path", "empty", "reject"), R("img.image", "path", "none", "reject"), R("img.image", "path", "int", "reject"),
+  R("img.image", "arch", "blanks", "reject"), R("img.image", "volume_id", "blanks", "reject"),
+  R("img.image", "implant_md5", "md5_nonhex", "reject"),      \* 32 characters of [a-z0-9] that are no hexadecimal digits
   R("img.image", "mtime", "strnum", "coerce"), R("img.image", "mtime", "none", "reject"), R("img.image", "mtime", "float", "coerce"),
   R("img.image", "disc_number", "strnum", "coerce"), R("img.image", "disc_number", "none", "reject"), R("img.image", "disc_number", "float", "coerce"),
   R("img.image", "disc_count", "strnum", "coerce"), R("img.image", "disc_count", "none", "reject"), R("img.image", "disc_count", "float", "coerce"),
@@ -99,16 +103,20 @@ TiRules == {
   R("ti.base_product", "name", "none", "na"), R("ti.base_product", "short", "none", "na"),
   R("ti.base_product", "version", "trailingdot", "reject"), R("ti.base_product", "version", "alnum", "reject"),
   R("ti.base_product", "version", "none", "na"),
-  R("ti.tree", "arch", "empty", "reject"), R("ti.tree", "arch", "none", "na"),
+  R("ti.tree", "arch", "empty", "reject"), R("ti.tree", "arch", "none", "na"), R("ti.tree", "arch", "blanks", "na"),
   R("ti.tree", "build_timestamp", "str", "reject"), R("ti.tree", "build_timestamp", "none", "na"), R("ti.tree", "build_timestamp", "zero", "reject"),
   R("ti.tree", "build_timestamp", "nan", "na"),        \* a float that is not a number: only the [general] writer trips over it
   R("ti.variant", "id", "dash", "reject"), R("ti.variant", "id", "none", "na"), R("ti.variant", "id", "int", "na"),
+  R("ti.variant", "id", "empty", "reject"),
   R("ti.variant", "type", "unknown", "reject"), R("ti.variant", "type", "layered", "reject"),
   R("ti.variant", "name", "none", "na"),
   R("ti.childvariant", "uid", "misaligned", "reject"),
   R("ti.images", "image_paths", "absolute", "reject"), R("ti.images", "platforms", "unreferenced", "reject"),
   R("ti.images", "image_paths", "int", "na"),
   R("ti.images", "image_paths", "table_none", "na"),      \* a platform's whole table replaced by None
+  \* values of the wrong type that merely look empty: the section writers return early on them
+  R("ti.images", "image_paths", "tables_zero", "na"), R("ti.images", "image_paths", "tables_emptylist", "na"),
+  R("ti.stage2", "mainimage", "zero", "na"), R("ti.stage2", "mainimage", "emptylist", "na"),
   \* the absolute path sits under an image name that another platform lists too (first / last platform holding it)
   R("ti.sharedimages", "image_paths", "absolute_shared", "reject"), R("ti.sharedimages", "image_paths", "absolute_shared_last", "reject"),
   R("ti.images", "platforms", "arch_unreferenced", "reject"),     \* images under the tree arch itself, arch missing from tree.platforms
